@@ -447,6 +447,10 @@ func stripStmt(s minijs.Stmt) minijs.Stmt {
 		return r
 	case minijs.SWhile:
 		return minijs.SWhile{E: t.E, Body: stripList(t.Body)}
+	case minijs.SDoWhile:
+		return minijs.SDoWhile{E: t.E, Body: stripList(t.Body)}
+	case minijs.SFor:
+		return minijs.SFor{Init: t.Init, Test: t.Test, Upd: t.Upd, Body: stripList(t.Body)}
 	case minijs.SLabelled:
 		return minijs.SLabelled{L: t.L, S: stripStmt(t.S)}
 	case minijs.STry:
